@@ -147,6 +147,32 @@ def run(tier: str) -> int:
                     r.hit({"node": n, "kind": "deepcopy-of-params-changes-results"},
                           f"{n} at {date} changes when params is replaced by a deep copy", {"date": date, "node": n})
             rules = [n for n in nodes if n in functions and not getattr(functions[n], "__info__", {}).get("skip_vectorization")]
+            # every rule replaced by an identical copy AT ONCE, for several row orders (whatever gettsim derives from a function
+            # object -- dtype, rounding, vectorisation -- must not depend on the object's identity, whichever row comes first)
+            def clone_of(f):
+                c = types.FunctionType(f.__code__, f.__globals__, f.__name__, f.__defaults__, f.__closure__)
+                c.__annotations__ = dict(f.__annotations__)
+                c.__kwdefaults__ = f.__kwdefaults__
+                if hasattr(f, "__info__"):
+                    c.__info__ = dict(f.__info__)
+                return c
+            all_clones = {**functions, **{n: clone_of(functions[n]) for n in rules}}
+            for rot in range(3 if quick else 8):
+                order = list(range(len(df)))
+                order = order[rot:] + order[:rot] if rot < 2 else rnd.sample(order, len(order))
+                d2 = df.iloc[order].reset_index(drop=True)
+                ok1, b2 = r.attempt(f"baseline (row order {rot}) at {date}", simulate_with, d2, params, functions, nodes)
+                ok2, c2 = r.attempt(f"all rules cloned (row order {rot}) at {date}", simulate_with, d2, params, all_clones, nodes)
+                if not (ok1 and ok2):
+                    continue
+                r.case({"date": date, "pop": k, "reform": "all rules cloned", "rot": rot})
+                for m in nodes:
+                    if not identical(c2[m], b2[m]):
+                        r.hit({"node": m, "kind": "identical-copy-changes-results", "rule": "all"},
+                              f"{m} at {date} changes when every rule is replaced by an identical copy of itself "
+                              f"({b2[m].tolist()[:6]} -> {c2[m].tolist()[:6]})",
+                              {"date": date, "node": m, "data": popgen.frame_to_json(d2)})
+                        break
             for n in rnd.sample(rules, 4 if quick else 25):
                 f = functions[n]
                 clone = types.FunctionType(f.__code__, f.__globals__, f.__name__, f.__defaults__, f.__closure__)
